@@ -180,6 +180,10 @@ def generate(rng, k):
         fd0 = DIM_CYCLE[k.get("run_index", 0) % len(DIM_CYCLE)]
         shape = "case_collision" if fd0 == "dirent" and (k.get("run_index", 0) // len(DIM_CYCLE)) % 2 == 0 else None
         files = projgen.gen_project(rng, k["n_modules"], k["size"], shape=shape)
+        if fd0 == "env":
+            # runs that vary the process environment: a flow whose report contains non-ASCII text although the source is ASCII
+            first_ = sorted(files)[0]
+            files[first_] += "\ndef flow_env(alpha):\n    iota = alpha\n    sink(iota, \"\\xc3\\xa9\")\n    return iota\nflow_env(1)\n"
         for p in sorted(files):
             ops.append({"op": "file", "path": p, "content": files[p]})
     else:
@@ -225,10 +229,13 @@ def generate(rng, k):
             ops.append(v_)
         else:
             ops.append(_gen_variant(rng, baseline))
-        if all_ascii and "env" in ops[-1] and ops[-1]["env"] and rng.random() < 0.5:
+        forced_ascii = j == 0 and DIM_CYCLE[ri % len(DIM_CYCLE)] == "env" and (ri // len(DIM_CYCLE)) % 2 == 0
+        if all_ascii and "env" in ops[-1] and ops[-1]["env"] and (rng.random() < 0.5 or forced_ascii):
             # a locale whose default text encoding is ASCII - only for projects that are pure ASCII themselves, because lian
             # decodes sources with the locale's encoding (see DESIGN, limits); the console keeps UTF-8
             ops[-1]["env"] = {"LC_ALL": "POSIX", "LANG": "POSIX", "PYTHONUTF8": "0", "PYTHONCOERCECLOCALE": "0", "PYTHONIOENCODING": "utf-8"}
+            lang_op["quiet"] = False          # with all report files, written by the whole pipeline
+            lang_op["sub"] = "run"
     return ops
 
 
